@@ -219,6 +219,41 @@ def simplifyL : List Re → List Re
   | r :: rs => simplify r :: simplifyL rs
 end
 
+/-! ### shape of parser-produced trees (checked on every generated tree; the hypotheses of the theorems) -/
+
+/-- a class as `cleanClass` leaves it: pairs `lo ≤ hi ≤ U+10FFFF`, sorted, neither overlapping nor adjacent -/
+def classShapeB : List Nat → Bool
+  | [] => true
+  | [_] => false
+  | [lo, hi] => decide (lo ≤ hi) && decide (hi ≤ maxRune)
+  | lo :: hi :: lo' :: rest => decide (lo ≤ hi) && decide (hi + 2 ≤ lo') && classShapeB (lo' :: rest)
+
+mutual
+/-- no empty literal, no empty alternation, classes in `cleanClass` shape, runes within range -/
+def wfPrintB : Re → Bool
+  | .lit rs _ => !rs.isEmpty && rs.all (fun c => decide (c ≤ maxRune))
+  | .cls rs => classShapeB rs
+  | .cap _ r | .star _ r | .plus _ r | .quest _ r | .rep _ _ _ r => wfPrintB r
+  | .concat rs => wfPrintBL rs
+  | .alt rs => !rs.isEmpty && wfPrintBL rs
+  | _ => true
+def wfPrintBL : List Re → Bool
+  | [] => true
+  | r :: rs => wfPrintB r && wfPrintBL rs
+end
+
+mutual
+/-- counted repetitions have the bounds the parser produces: `x{n,}` or `x{n,m}` with `n ≤ m` -/
+def wfRepB : Re → Bool
+  | .rep _ mn mx r => (mx == -1 || decide ((mn : Int) ≤ mx)) && wfRepB r
+  | .cap _ r | .star _ r | .plus _ r | .quest _ r => wfRepB r
+  | .concat rs | .alt rs => wfRepBL rs
+  | _ => true
+def wfRepBL : List Re → Bool
+  | [] => true
+  | r :: rs => wfRepB r && wfRepBL rs
+end
+
 /-! ### `convertCapture`, `OptimizeRegexp` (the parser is a parameter) -/
 
 /-- `convertCapture(re, flags)` with `parse s = syntax.Parse(s, flags)` (`none` = error) -/
